@@ -71,7 +71,7 @@ def execute(plan):
         "seed": plan["seed"],
         "digest": history["digest"],
         "violations": violations,
-        "probes": probes_of(history),
+        "probes": dict(probes_of(history), **history.get("graph_probes", {})),
         "faults": history["faults"],
         "ilv": trun.interleaving_hash(history),
         "pairs": sorted("|".join(p) for p in trun.concurrency_pairs(history)),
